@@ -793,6 +793,8 @@ class FuncAnalysis:
                 return False
             return None
         av = self.ev(e)
+        if av.has('dyn') and not isinstance(e, (ast.Compare, ast.Constant)):
+            self.sink('S-dyncall', e, 'truth test of a document-selected object (calls its __bool__ / __len__)')
         if isinstance(e, ast.Name):
             return truth(av)
         if isinstance(e, ast.Constant):
@@ -985,6 +987,8 @@ class FuncAnalysis:
                 if r.has('dyn'):
                     self.sink('S-dyncall', e, 'membership test on a document-selected object (calls its __contains__)')
                 continue
+            if l.has('dyn') or r.has('dyn'):
+                self.sink('S-dyncall', e, 'comparison of a document-selected object (calls its __eq__ / __ne__ / ordering methods)')
         return T('bool')
 
     def ev_BinOp(self, e):
